@@ -27,7 +27,8 @@ fn close(a: f64, b: f64) -> bool { (a - b).abs() <= 1e-6 * a.abs().max(b.abs()).
 // C09
 
 const AGG9: [&str; 9] = ["sum(income)", "avg(age)", "count(age)", "count(*)", "sum(age)", "avg(income)", "variance(income)", "stddev(age)", "count(DISTINCT city)"];
-const OAGG9: [&str; 9] = ["sum(amount)", "avg(qty)", "count(qty)", "count(*)", "avg(amount)", "sum(bal)", "avg(bal)", "sum(bal)", "sum(eps)"];
+// sum(amount * 100.0051): a clipping constant (10000.51 × multiplicity) that needs more than five significant digits when it is written into the SQL text
+const OAGG9: [&str; 10] = ["sum(amount)", "avg(qty)", "count(qty)", "count(*)", "avg(amount)", "sum(bal)", "avg(bal)", "sum(bal)", "sum(eps)", "sum(amount * 100.0051)"];
 
 pub fn gen_c09(rng: &mut Rng, _k: usize, _tier: &str) -> J {
     let from_orders = rng.chance(1, 3);
